@@ -533,15 +533,19 @@ func (s *state) visitForRange(node *ast.ForNode) {
 		limit = rangeNode.Args[0]
 	}
 
+	// The range arguments are generated before the loop variable is bound:
+	// they belong to the enclosing scope ({for $i in range($i)} refers to an
+	// outer $i).
 	var varIndex,
-		varLimit = s.scope.pushForRange(node.Var)
-	defer s.scope.pop()
+		varLimit = s.scope.forRangeNames(node.Var)
 	s.jsln("var ", varLimit, " = ", limit, ";")
 	s.jsln("for (var ", varIndex, " = ", init, "; ",
 		varIndex, " < ", varLimit, "; ",
 		varIndex, " += ", increment, ") {")
 	s.indentLevels++
+	s.scope.pushLoop(node.Var, varIndex, varLimit, varIndex)
 	s.walk(node.Body)
+	s.scope.pop()
 	s.indentLevels--
 	s.jsln("}")
 }
@@ -550,8 +554,10 @@ func (s *state) visitForeach(node *ast.ForNode) {
 	var itemData,
 		itemList,
 		itemListLen,
-		itemIndex = s.scope.pushForEach(node.Var)
-	defer s.scope.pop()
+		itemIndex = s.scope.forEachNames(node.Var)
+	// The list expression is generated before the loop variable is bound: it
+	// belongs to the enclosing scope ({foreach $x in $x.children} refers to
+	// an outer $x), and so does {ifempty}.
 	s.jsln("var ", itemList, " = ", node.List, ";")
 	s.jsln("var ", itemListLen, " = ", itemList, ".length;")
 	if node.IfEmpty != nil {
@@ -561,7 +567,9 @@ func (s *state) visitForeach(node *ast.ForNode) {
 	s.jsln("for (var ", itemIndex, " = 0; ", itemIndex, " < ", itemListLen, "; ", itemIndex, "++) {")
 	s.indentLevels++
 	s.jsln("var ", itemData, " = ", itemList, "[", itemIndex, "];")
+	s.scope.pushLoop(node.Var, itemData, itemListLen, itemIndex)
 	s.walk(node.Body)
+	s.scope.pop()
 	s.indentLevels--
 	s.jsln("}")
 	if node.IfEmpty != nil {
